@@ -43,7 +43,12 @@ class Runner:
             case = payload["case"]
         else:
             case = mod.gen_case(random.Random(payload["seed"]), self.tier)
+        frozen = K.jdump(case)
         rec = mod.run_case(case)
+        if K.jdump(case) != frozen:
+            # the code under test (or the harness) wrote into the case: the recorded case must be the one that was run
+            case = json.loads(frozen)
+            rec.setdefault("probes", {})["case_object_mutated_by_run"] = 1
         if rec.get("violations") or payload.get("want_case"):
             rec["case"] = case
         return rec
@@ -243,6 +248,7 @@ class Runner:
         # 4. violations: known finding, or minimise + fresh replay
         n_viol = 0
         reported = []
+        attempts = 0
         known_printed = set()
         for key, (tag, case, v) in sorted(viol.items(), key=lambda kv: str(kv[0])):
             kf = self.known.match(mod.ID, key[0], key[1])
@@ -252,9 +258,15 @@ class Runner:
                     known_printed.add(kf["id"])
                     print(f"KNOWN-FINDING: property={mod.ID} {kf['id']}: {kf['what']} [class={key[0]} sig={key[1]}]")
                 continue
-            if len(reported) >= int(os.environ.get("VERIF_MAX_REPORT", "6")):
+            max_report = int(os.environ.get("VERIF_MAX_REPORT", "6"))
+            if len(reported) >= max_report:
                 n_viol += 1
                 continue
+            if attempts >= 2 * max_report:
+                # minimise + fresh replay is spent on a bounded number of alarms; the rest are counted, not chased
+                agg["harness"].append({"run": tag, "kind": "alarm_not_processed", "info": f"{key}: report attempts exhausted"})
+                continue
+            attempts += 1
             budget_class = key[0] in getattr(mod, "BUDGET_CLASSES", ())
             if budget_class:
                 small, info = case, {"execs": 0, "note": "budget oracle: not minimised"}
